@@ -282,6 +282,16 @@ func system(rec *mon.Recorder, c int) {
 					case 1:
 						id[15] |= 0x80
 						id[7] |= 0x80
+					case 2:
+						// the two ids no generator of identifiers produces, and an id is any 128 bits: all zero, all ones
+						// (each is removed again at the end of its turn, so it can come back)
+						id = uuid.UUID{}
+						if serial%12 == 8 {
+							for i := range id {
+								id[i] = 0xff
+							}
+						}
+						rec.Count("corner_ids_written_through_the_cluster", 1)
 					}
 					if err := call(entry, ins, id, float32(serial)); err != nil {
 						fail("write-failed:"+ins, fmt.Sprintf("%s through node %d: %v", ins, entry.Id, err))
